@@ -19,6 +19,8 @@ Rdata::components yields embedded names and Rdata::read decompresses (the pre-RF
 octet comparison for everything else;
 (c) RdataSetOwned::insert compares the candidate with every existing member through Rdata::equals under the set's class
 and type, returns false without touching the buffer on a match, and otherwise appends at the end.
+(shared) octet-level ASCII case folding (eq_ignore_ascii_case, to/make_ascii_lowercase on octets) is called only from the
+name-label code: RDATA outside embedded names is compared octet for octet.
 Not decided: reflexivity / transitivity over arbitrary octets.
 """
 ASSUMPTIONS = ['every CFG path is assumed feasible', 'Name equality is case-insensitive and implies equal wire length (C16)']
@@ -27,6 +29,9 @@ HELP = 'rr::rdata::helpers::'
 
 
 def check(R, F):
+    from rules.name_rules import check_case_folding_callers
+    check_case_folding_callers(R, F)
+
     # ---- (a)
     users = []
     for gp, fn in F.fns.items():
